@@ -272,7 +272,11 @@ var collectFns = map[assignMode]collectFn{
 		if x == nil || len(a) >= n {
 			return a, nil
 		}
-		return append(a, x), nil
+		// The array is extended in a fresh copy: an earlier value of the
+		// variable (e.g. one copied by a `computes` clause) shares its
+		// backing store, and the expression evaluator appends in place
+		// to the arrays it is given as function arguments.
+		return append(a[:len(a):len(a)], x), nil
 	},
 	assignLastN: func(a []interface{}, n int, x interface{}) ([]interface{}, error) {
 		if x == nil {
@@ -281,7 +285,8 @@ var collectFns = map[assignMode]collectFn{
 		if len(a) >= n {
 			a = a[1:]
 		}
-		return append(a, x), nil
+		// See above.
+		return append(a[:len(a):len(a)], x), nil
 	},
 	assignTopN: func(a []interface{}, n int, x interface{}) ([]interface{}, error) {
 		if x == nil {
